@@ -888,6 +888,16 @@ var queue []hxlib.Case
 func emit(cs hxlib.Case) { queue = append(queue, cs) }
 
 func flushQueue(c *hxlib.Ctx, shard int) {
+	// corpus histories (regressions of repaired defects) are reported first
+	var rest []hxlib.Case
+	for _, cs := range queue {
+		if cs.Kind == "corpus" {
+			c.Emit(cs)
+		} else {
+			rest = append(rest, cs)
+		}
+	}
+	queue = rest
 	sort.SliceStable(queue, func(i, j int) bool { return len(queue[i].Coq) > len(queue[j].Coq) })
 	nb := (len(queue) + shard - 1) / shard
 	if nb == 0 {
